@@ -39,6 +39,25 @@ Fixpoint dset (k v : N) (d : data) : data :=
   | (k', v') :: r => if k <? k' then (k, v) :: d else if k =? k' then (k, v) :: r else (k', v') :: dset k v r
   end.
 
+(** The content of an object is one map with the component in the key: keys below 1000 are .data, 1000-1999
+    metadata.labels (other than the cache label), 2000-2999 metadata.annotations. *)
+Definition is_meta (k : N) : bool := 1000 <=? k.
+Definition has_key (k : N) (d : data) : bool := match dlookup k d with Some _ => true | None => false end.
+Definition data_part (d : data) : data := filter (fun kv => negb (is_meta (fst kv))) d.
+
+(** What client.Update sends on the update path (template_reconciler.go:116-121): the rendered object with
+    labels := labels.Merge(existing, rendered) and annotations likewise - rendered keys win, keys only the
+    existing object has are KEPT; everything else is the rendered object's. *)
+Definition merge_meta (ex body : data) : data :=
+  fold_left (fun acc kv => if is_meta (fst kv) && negb (has_key (fst kv) body) then dset (fst kv) (snd kv) acc else acc) ex body.
+
+(** [d] is what the template denotes, up to label / annotation keys it does not mention:
+    every rendered key is there with the rendered value, and every .data key is a rendered one. *)
+Definition follows (d body : data) : bool :=
+  forallb (fun kv => match dlookup (fst kv) d, dlookup (fst kv) body with
+                     | Some x, Some y => x =? y | None, None => true | _, _ => false end) body
+  && forallb (fun kv => is_meta (fst kv) || has_key (fst kv) body) d.
+
 Definition pair_eqb (a b : N * N) : bool := (fst a =? fst b) && (snd a =? snd b).
 Fixpoint data_eqb (a b : data) : bool :=
   match a, b with
@@ -365,10 +384,10 @@ Section Model.
   Definition new_target (body : data) : obj :=
     {| o_data := body; o_lbl := LTrue; o_ctrl := me; o_gen := 1; o_sobs := None; o_conds := [] |}.
   (** client.Update with the rendered object: body replaced, owner references, labels and annotations of
-      the existing object kept (:116-121); the rendered object has no status. *)
+      the existing object merged under the rendered ones (:116-121, [merge_meta]); the rendered object has no status. *)
   Definition updated_target (ex : obj) (body : data) : obj :=
-    {| o_data := body; o_lbl := LTrue; o_ctrl := o_ctrl ex;
-       o_gen := if data_eqb (o_data ex) body then o_gen ex else o_gen ex + 1;
+    {| o_data := merge_meta (o_data ex) body; o_lbl := LTrue; o_ctrl := o_ctrl ex;
+       o_gen := if data_eqb (data_part (o_data ex)) (data_part body) then o_gen ex else o_gen ex + 1;   (* metadata does not bump the generation *)
        o_sobs := None; o_conds := [] |}.
 
   (** ** templateReconciler.Reconcile (:70-136) with the deferred
@@ -401,9 +420,9 @@ Section Model.
                     let t1 := set_conds t cs in
                     match update_res k with                                      (* :121 *)
                     | WOk => (with_store w2 (upsert (nkey k) (updated_target ex body) (w_store w2)),
-                              e1 ++ [EWatch (k_kind k); ECacheHit (nkey k) (o_data ex); EUpdate k body WOk],
+                              e1 ++ [EWatch (k_kind k); ECacheHit (nkey k) (o_data ex); EUpdate k (merge_meta (o_data ex) body) WOk],
                               set_invalid (set_ctrlof t1 (Some k)) 0, rq, 0)     (* :125-135 *)
-                    | r => (w2, e1 ++ [EWatch (k_kind k); ECacheHit (nkey k) (o_data ex); EUpdate k body r], t, rq, 3)
+                    | r => (w2, e1 ++ [EWatch (k_kind k); ECacheHit (nkey k) (o_data ex); EUpdate k (merge_meta (o_data ex) body) r], t, rq, 3)
                     end
                 end
             end
@@ -558,9 +577,9 @@ Section Model.
                            | None, Some _ => update_res k
                            | _, _ => WOther end) with
                     | WOk => (with_store w3 (upsert (nkey k) (updated_target ex body) (w_store w3)),
-                              e1 ++ [EWatch (k_kind k); ECacheHit (nkey k) (o_data ex); EUpdate k body WOk],
+                              e1 ++ [EWatch (k_kind k); ECacheHit (nkey k) (o_data ex); EUpdate k (merge_meta (o_data ex) body) WOk],
                               set_invalid (set_ctrlof t1 (Some k)) 0, rq, 0, n1 + 1, rs)
-                    | r => (w3, e1 ++ [EWatch (k_kind k); ECacheHit (nkey k) (o_data ex); EUpdate k body r], t, rq, 3, n1 + 1, rs)
+                    | r => (w3, e1 ++ [EWatch (k_kind k); ECacheHit (nkey k) (o_data ex); EUpdate k (merge_meta (o_data ex) body) r], t, rq, 3, n1 + 1, rs)
                     end
                 end
             end
